@@ -40,7 +40,7 @@ func init() {
 		if tier == "thorough" {
 			n = e + 4000
 		}
-		return Plan{Runs: n, Enumerated: e, Exhaustive: tier == "thorough", Level: "fault_enumeration", Rule: "enumerated runs: every truncation point (prefix length 0..len-1) of a valid DER CRL and of its PEM form, delivered on the handshake-time first-load path (all points) and on the provision-file and refresh paths (all points in thorough, every 4th in quick), a fixed list of valid-but-unusual documents, and every TLV header of the DER document x 9 structural edits (tag swaps, length +1/-1, indefinite and giant lengths, element dropped), and 30 PEM framing cases (blank lines at three positions, CR/LF forms, RFC 1421 headers, re-wrapped at 65/66/76 characters, one line, broken or missing armour, padding and NUL inside the body, two blocks, 1 MiB line) x 3 paths, and ~130 signature/hash algorithm identifiers met in the wild and their neighbours (x parameters absent/NULL) in both AlgorithmIdentifier fields, and 23 hostile Name values/structures (non-string attribute values, malformed RDNs) in the issuer field and in the AKI's authorityCertIssuer (v1, v2 without crlExtensions, no revoked entries, no nextUpdate) on all three paths; further runs: tape-chosen structure-aware mutations (a TLV header's length rewritten to 0x80..0x8f forms / 2^31-1 / 2^63 / beyond the remaining bytes, tag swaps, nesting, random bytes, broken PEM armour, very long lines, hostile authorityKeyIdentifier values) on a tape-chosen path and backend; oracle: no panic or process death, every call returns, allocation of the whole step that parses (including logging and harness bookkeeping, hence the generous constant) <= 64 MiB + 64 x size, with the address space of the run capped at 8 GiB so that a giant allocation kills only that run, a later good delivery is processed; non-trivial = the delivered bytes differ from a valid CRL"}
+		return Plan{Runs: n, Enumerated: e, Exhaustive: tier == "thorough", Level: "fault_enumeration", Rule: "enumerated runs: every truncation point (prefix length 0..len-1) of a valid DER CRL and of its PEM form, delivered on the handshake-time first-load path (all points) and on the provision-file and refresh paths (all points in thorough, every 4th in quick), a fixed list of valid-but-unusual documents, and every TLV header of the DER document x 9 structural edits (tag swaps, length +1/-1, indefinite and giant lengths, element dropped), and 30 PEM framing cases (blank lines at three positions, CR/LF forms, RFC 1421 headers, re-wrapped at 65/66/76 characters, one line, broken or missing armour, padding and NUL inside the body, two blocks, 1 MiB line) x 3 paths, and ~130 signature/hash algorithm identifiers met in the wild and their neighbours (x parameters absent/NULL) in both AlgorithmIdentifier fields, and 23 hostile Name values/structures (non-string attribute values, malformed RDNs) in the issuer field and in the AKI's authorityCertIssuer, and 16 member combinations and forms of the authorityKeyIdentifier (keyId, issuer and serial alone and combined, empty, negative, not a SEQUENCE, trailing bytes) x 3 paths (v1, v2 without crlExtensions, no revoked entries, no nextUpdate) on all three paths; further runs: tape-chosen structure-aware mutations (a TLV header's length rewritten to 0x80..0x8f forms / 2^31-1 / 2^63 / beyond the remaining bytes, tag swaps, nesting, random bytes, broken PEM armour, very long lines, hostile authorityKeyIdentifier values) on a tape-chosen path and backend; oracle: no panic or process death, every call returns, allocation of the whole step that parses (including logging and harness bookkeeping, hence the generous constant) <= 64 MiB + 64 x size, with the address space of the run capped at 8 GiB so that a giant allocation kills only that run, a later good delivery is processed; non-trivial = the delivered bytes differ from a valid CRL"}
 	}, Run: runC07})
 }
 
@@ -66,7 +66,63 @@ const c07tlvMax = 72
 var c07structVariants = []string{"tag:=31", "tag:=04", "tag:=30", "len+1", "len-1", "len:=80", "len:=847fffffff", "len:=8410000000", "drop"}
 
 func c07enumCount(tier string) int {
-	return c07truncCount(tier) + c07tlvMax*len(c07structVariants) + len(c07pemCases)*3 + 2*len(c07algOIDs) + 2*len(c07nameValues)
+	return c07truncCount(tier) + c07tlvMax*len(c07structVariants) + len(c07pemCases)*3 + 2*len(c07algOIDs) + 2*len(c07nameValues) + 3*len(c07akiCases)
+}
+
+// c07akiCases: which members an authorityKeyIdentifier carries, and in which form. RFC 5280 wants authorityCertIssuer
+// and authorityCertSerialNumber both or neither; a hostile or sloppy origin sends any subset. Each case travels on all
+// three intake paths; the extension is read before any signature is checked.
+var c07akiCases = []string{"empty-seq", "keyid", "issuer-dir", "issuer-rfc822", "issuer-empty", "serial", "issuer-dir+serial", "issuer-rfc822+serial",
+	"keyid+issuer-dir", "keyid+serial", "keyid+issuer-dir+serial", "keyid(empty)", "serial(empty)", "serial(negative)", "not-a-sequence", "trailing-bytes"}
+
+func c07aki(kind string, w *World) []byte {
+	var ab cryptobyte.Builder
+	keyid := func(b *cryptobyte.Builder, v []byte) {
+		b.AddASN1(cbasn1.Tag(0).ContextSpecific(), func(b *cryptobyte.Builder) { b.AddBytes(v) })
+	}
+	issuer := func(b *cryptobyte.Builder, form string) {
+		b.AddASN1(cbasn1.Tag(1).ContextSpecific().Constructed(), func(b *cryptobyte.Builder) {
+			switch form {
+			case "dir":
+				b.AddASN1(cbasn1.Tag(4).ContextSpecific().Constructed(), func(b *cryptobyte.Builder) { b.AddBytes(w.A.Cert.RawIssuer) })
+			case "rfc822":
+				b.AddASN1(cbasn1.Tag(1).ContextSpecific(), func(b *cryptobyte.Builder) { b.AddBytes([]byte("ca@example.sim")) })
+			}
+		})
+	}
+	serial := func(b *cryptobyte.Builder, v []byte) {
+		b.AddASN1(cbasn1.Tag(2).ContextSpecific(), func(b *cryptobyte.Builder) { b.AddBytes(v) })
+	}
+	if kind == "not-a-sequence" {
+		return []byte{0x02, 0x01, 0x05}
+	}
+	ab.AddASN1(cbasn1.SEQUENCE, func(b *cryptobyte.Builder) {
+		for _, part := range strings.Split(strings.TrimSuffix(kind, "-bytes"), "+") {
+			switch part {
+			case "keyid", "trailing":
+				keyid(b, w.A.Cert.SubjectKeyId)
+			case "keyid(empty)":
+				keyid(b, nil)
+			case "issuer-dir":
+				issuer(b, "dir")
+			case "issuer-rfc822":
+				issuer(b, "rfc822")
+			case "issuer-empty":
+				issuer(b, "")
+			case "serial":
+				serial(b, w.A.Cert.SerialNumber.Bytes())
+			case "serial(empty)":
+				serial(b, nil)
+			case "serial(negative)":
+				serial(b, []byte{0xff, 0x01})
+			}
+		}
+	})
+	out := ab.BytesOrPanic()
+	if kind == "trailing-bytes" {
+		out = append(out, 0x05, 0x00, 0xde, 0xad)
+	}
+	return out
 }
 
 // c07nameValues: what a Name can carry where a directory string is expected, and malformed Name structures. Each is
@@ -370,7 +426,16 @@ func runC07(h *Harness) {
 		}, "refresh"},
 	}
 	done := false
-	if nameBase := c07truncCount(h.Tier) + c07tlvMax*len(c07structVariants) + len(c07pemCases)*3 + 2*len(c07algOIDs); idx >= nameBase && idx < enum {
+	if akiBase := c07truncCount(h.Tier) + c07tlvMax*len(c07structVariants) + len(c07pemCases)*3 + 2*len(c07algOIDs) + 2*len(c07nameValues); idx >= akiBase && idx < enum {
+		j := idx - akiBase
+		kind := c07akiCases[j%len(c07akiCases)]
+		s := *derDoc
+		s.AKIRaw = c07aki(kind, w)
+		body, desc = s.Build().Bytes, "authorityKeyIdentifier members: "+kind
+		path = c07paths[j/len(c07akiCases)]
+		backend = []string{"memory", "disk"}[h.Idx%2]
+		done = true
+	} else if nameBase := c07truncCount(h.Tier) + c07tlvMax*len(c07structVariants) + len(c07pemCases)*3 + 2*len(c07algOIDs); idx >= nameBase && idx < enum {
 		j := idx - nameBase
 		k, where := j/2, []string{"issuer", "aki-directoryName"}[j%2]
 		s := *derDoc
